@@ -17,6 +17,7 @@ import (
 	"slices"
 	"strings"
 	"sync"
+	"unicode"
 )
 
 // Equal reports whether two Go values representing JSON values are equal according
@@ -496,7 +497,10 @@ func fieldJSONInfo(f reflect.StructField) jsonInfo {
 		if name == "-" && !found {
 			return jsonInfo{omit: true}
 		}
-		if name != "" {
+		// Like encoding/json, ignore a name that is not a valid tag name
+		// (for example one containing a quote or a backslash) and keep the
+		// Go field name.
+		if name != "" && isValidTagName(name) {
 			info.name = name
 		}
 		if len(rest) > 0 {
@@ -507,6 +511,25 @@ func fieldJSONInfo(f reflect.StructField) jsonInfo {
 		}
 	}
 	return info
+}
+
+// isValidTagName reports whether encoding/json accepts s as the name part of a
+// json struct tag. (It mirrors encoding/json's unexported isValidTag.)
+func isValidTagName(s string) bool {
+	if s == "" {
+		return false
+	}
+	for _, c := range s {
+		switch {
+		case strings.ContainsRune("!#$%&()*+-./:;<=>?@[]^_{|}~ ", c):
+			// Backslash and quote chars are reserved, but
+			// otherwise any punctuation chars are allowed
+			// in a tag name.
+		case !unicode.IsLetter(c) && !unicode.IsDigit(c):
+			return false
+		}
+	}
+	return true
 }
 
 // wrapf wraps *errp with the given formatted message if *errp is not nil.
